@@ -33,6 +33,9 @@ site: http://bugseng.com/products/ppl/ . */
 #include <iostream>
 #include <sstream>
 #include <stdexcept>
+#ifdef BUGSENG_PPL_VERIF
+#include "verif_hooks.hh"
+#endif
 
 #ifdef PPL_DOXYGEN_INCLUDE_IMPLEMENTATION_DETAILS
 /*! \ingroup PPL_defines
@@ -1145,6 +1148,9 @@ PPL::Polyhedron::minimize() const {
 
 bool
 PPL::Polyhedron::strongly_minimize_constraints() const {
+#ifdef BUGSENG_PPL_VERIF
+  PPL_VERIF_REACH(POLY_STRONG_MIN_CONS);
+#endif
   PPL_ASSERT(!is_necessarily_closed());
 
   // From the user perspective, the polyhedron will not change.
@@ -1320,6 +1326,9 @@ PPL::Polyhedron::strongly_minimize_constraints() const {
 
 bool
 PPL::Polyhedron::strongly_minimize_generators() const {
+#ifdef BUGSENG_PPL_VERIF
+  PPL_VERIF_REACH(POLY_STRONG_MIN_GENS);
+#endif
   PPL_ASSERT(!is_necessarily_closed());
 
   // From the user perspective, the polyhedron will not change.
